@@ -148,21 +148,38 @@ func newWorld(c *harness.Ctx, sim *kern.Sim, nslots int) *World {
 	}
 	w.srv = srv
 	if cfg["late"] != "" {
-		// a resource that is registered only after the handler was obtained
+		// a resource that is registered only after the handler was obtained: preferably one that
+		// hangs below (or shares the root of) a resource the handler already knows, so that the
+		// registration touches existing path nodes; otherwise a new root
+		var below, fresh []*ResDesc
 		for _, rd := range Resources {
-			taken := false
+			picked, sameRoot := false, false
 			for _, p := range pick {
+				if p == rd {
+					picked = true
+				}
 				if strings.Split(p.Path, "/")[0] == strings.Split(rd.Path, "/")[0] {
-					taken = true
+					sameRoot = true
 				}
 			}
-			if !taken {
-				w.late = rd
-				m := reflect.ValueOf(rd.NewMock())
-				w.mocks[rd] = m
-				w.installMocks(rd, m)
-				break
+			switch {
+			case picked:
+			case sameRoot:
+				below = append(below, rd)
+			default:
+				fresh = append(fresh, rd)
 			}
+		}
+		cands := fresh
+		if len(below) > 0 && (len(fresh) == 0 || c.Choose(3, "late-below") != 0) {
+			cands = below
+			c.Probe("late-registration-below-existing-root")
+		}
+		if len(cands) > 0 {
+			w.late = cands[c.Choose(len(cands), "late-res")]
+			m := reflect.ValueOf(w.late.NewMock())
+			w.mocks[w.late] = m
+			w.installMocks(w.late, m)
 		}
 	}
 	w.net = NewNet(c, sim, handler, nslots)
@@ -315,8 +332,13 @@ func rpc(c *harness.Ctx) {
 			c.Fail("C05", "late-registration-visible", "late-registration-visible", "call #%d %s reached a resource that was registered after the handler had been obtained [%s]", call.ID, call.Desc, world)
 			return
 		}
-		if call.Done && len(call.Exchanges) > 0 && call.Exchanges[0].Status != 404 && !call.MustReject {
-			c.Fail("C05", "late-registration-status", fmt.Sprintf("late-registration-status:%d", call.Exchanges[0].Status), "call #%d %s to a resource unknown to the handler was answered %d, expected 404 [%s]", call.ID, call.Desc, call.Exchanges[0].Status, world)
+		if st := 0; call.Done && len(call.Exchanges) > 0 && !call.MustReject && !anyFault(call) {
+			// an unknown resource or sub-resource is 404; a known path node without that method is 400
+			st = call.Exchanges[0].Status
+			if st == 404 || st == 400 {
+				continue
+			}
+			c.Fail("C05", "late-registration-status", fmt.Sprintf("late-registration-status:%d", st), "call #%d %s to a resource unknown to the handler was answered %d, expected 404 / 400 [%s]", call.ID, call.Desc, st, world)
 			return
 		}
 	}
